@@ -292,8 +292,8 @@ func runDigests(r *ev.Run) {
 	// shared HashCaches: one per (algo, idx, prevKind, amount); every shape's
 	// midstate is added first so that retrieval happens from a populated cache.
 	type ck struct {
-		algo           string
-		idx, pk, amt   int
+		algo         string
+		idx, pk, amt int
 	}
 	caches := map[ck]*txscript.HashCache{}
 	seenTxid := map[chainhash.Hash]string{}
